@@ -1,5 +1,8 @@
 #!/usr/bin/env python3
-"""Regenerates tables/panic_ledger.json from the current facts + the reviewed REASONS below.
+"""HISTORICAL (v1 keys): produced the first tables/panic_ledger.json.  The ledger has since been re-keyed by
+tools/migrate_panic_keys.py (head-only descriptors, closure ordinals removed) and pruned of rows that sound discharge idioms now
+prove; do not run this script against the current ledger - it would overwrite it with v1 keys.
+Regenerates tables/panic_ledger.json from the current facts + the reviewed REASONS below.
 Rows whose reason starts with 'FINDING' are not written: they stay violations."""
 import sys, glob, os, collections, json
 V = os.path.dirname(os.path.dirname(os.path.abspath(__file__)))
@@ -80,5 +83,5 @@ for key, v in rows.items():
 doc = ("Reviewed panic-capable sites reachable from request entry points that the discharge idioms do not prove safe. "
        "key = fn|kind|descriptor (line independent); max = number of sites with that key confirmed by reading. "
        "A site neither discharged nor listed (or exceeding max) is a violation.")
-json.dump({"_doc": doc, "rows": out}, open(os.path.join(V, "tables/panic_ledger.json"), "w"), indent=1)
+json.dump({"_doc": doc, "rows": out}, open(os.path.join(V, "tables/panic_ledger.v1.json"), "w"), indent=1)   # never the live ledger
 print(len(out), "rows written")
